@@ -103,8 +103,8 @@ func init() {
 
 		"internal/abi.NoEscape":   func(fr *frame, a []value) value { return a[0] },
 		"internal/abi.FuncPCABI0": func(fr *frame, a []value) value { return uintptr(0) },
-		"internal/godebug.(*Setting).Value": func(fr *frame, a []value) value { return "" },
-		"internal/godebug.(*Setting).IncNonDefault": noop,
+		"(*internal/godebug.Setting).Value": func(fr *frame, a []value) value { return "" },
+		"(*internal/godebug.Setting).IncNonDefault": noop,
 		"internal/race.Acquire":     noop,
 		"internal/race.Release":     noop,
 		"internal/race.ReleaseMerge": noop,
